@@ -12,16 +12,32 @@ TabWords == {<<a>> : a \in Letters} \cup {<<a, b>> : a \in Letters, b \in Letter
 TabSuffixes == {".", ":", ")"}
 Punct == {"-", "FIGDASH", "ENDASH", "EMDASH", "HYPHEN", "NBHYPHEN", "HBAR", "MINUS", "COPY", "SECT", "CURR", "MIDDOT", "*", "RQUOTE", "'", "EACUTE"}
 
+(* dates: the third ignorable text, ^\d{4}-(\d{2}|[a-z]{3})-\d{2}$ with (?i): every two-digit month and day (the expression does not
+   validate them: 00, 13, 32..39 are dates as well), three-letter months in both cases, and near misses *)
+Dig == {"0", "1", "2", "3", "4", "5", "6", "7", "8", "9"}
+TwoDig(hi) == {<<a, b>> : a \in hi, b \in Dig}
+TabMonths == TwoDig({"0", "1"}) \cup {<<"j", "a", "n">>, <<"M", "a", "r">>, <<"D", "E", "C">>, <<"1">>, <<"j", "a">>, <<"j", "a", "n", "e">>, <<"j", "1", "n">>}
+TabDays   == TwoDig({"0", "1", "2", "3"}) \cup {<<"1">>, <<"1", "0", "0">>, <<"1", "a">>}
+DateLine(m, d) == <<"2", "0", "1", "9", "-">> \o m \o <<"-">> \o d
+(* interchangeable spellings with punctuation attached, as they stand in running text: the cleaned word is what is looked up *)
+Wraps == {<< <<"(">>, <<")", ",">> >>, << <<>>, <<".">> >>, << <<"'">>, <<"'", ",">> >>, << <<"(", "'">>, <<"'", ")", ";">> >>, << <<>>, <<"-", "1", "2", "3">> >>}
+
 VARIABLE done
 Init == done = FALSE
 Out  == /\ ~done /\ done' = TRUE
         /\ LET ws == SetToSeq(TabWords)  ss == SetToSeq(TabSuffixes)  ps == SetToSeq(Punct) IN
            PrintT(ToJson([hdr |-> [i \in 1..Len(ws) |-> <<ws[i], [j \in 1..Len(ss) |-> <<ss[j], Header(Append(ws[i], ss[j]))>>]>>],
                           inter |-> [i \in 1..Len(InterFrom) |-> <<InterFrom[i], Clean(1, InterFrom[i], TRUE), Clean(1, InterFrom[i], FALSE), Clean(1, InterTo[i], TRUE)>>],
-                          punct |-> [i \in 1..Len(ps) |-> <<ps[i], MapLower(ps[i])>>]]))
+                          punct |-> [i \in 1..Len(ps) |-> <<ps[i], MapLower(ps[i])>>],
+                          dates |-> LET ds == SetToSeq({DateLine(m, d) : m \in TabMonths, d \in TabDays}) IN [i \in 1..Len(ds) |-> <<ds[i], IsNotice(ds[i])>>],
+                          wrapped |-> LET wr == SetToSeq(Wraps) IN
+                                      [i \in 1..Len(InterFrom) |-> [j \in 1..Len(wr) |->
+                                         LET w == wr[j][1] \o InterFrom[i] \o wr[j][2] IN <<w, Clean(1, w, TRUE)>>]]]))
 Spec == Init /\ [][Out]_done
 
 (* sanity of the snapshot: a marker is a marker with "." and ":" (and, for the letter markers, not with ")": finding C06-letter-paren-marker) *)
 MarkersAreHeaders == \A m \in ListMarkers : Header(Append(m, ".")) /\ Header(Append(m, ":"))
+DatesAreNotices == \A m \in TwoDig({"0", "1"}), d \in TwoDig({"0", "1", "2", "3"}) : IsNotice(DateLine(m, d))
+WrappedMapsLikeBare == \A i \in 1..Len(InterFrom), w \in Wraps : Clean(1, w[1] \o InterFrom[i] \o w[2], TRUE) = InterTo[i]
 InterMapsOnce == \A i \in 1..Len(InterFrom) : Inter(InterFrom[i]) = InterTo[i] /\ (InterTo[i] \notin InterSet \/ InterTo[i] = InterFrom[i])
 =============================================================================
